@@ -242,6 +242,8 @@ def rand_blocks(rng, depth, allow_titled, top=True):
         elif k < 0.62:
             out.append(["Q", rand_blocks(rng, depth - 1, allow_titled, False)])
         elif k < 0.74:
+            if out and out[-1][0] == "L":
+                out.append(["P"])  # two adjacent lists would merge into one bullet_list
             out.append(["L", rand_blocks(rng, depth - 1, allow_titled, False)])
         elif k < 0.84:
             out.append(["N", rand_blocks(rng, depth - 1, allow_titled, False)])
@@ -376,8 +378,20 @@ def _kinds(bs):
 def expected_structure(doc):
     """Independent computation from the document structure:
     (doc-level headings [(id, level)], nested headings {id: level}) with ids in source order."""
-    top, nested = [], {}
+    top, nested, ignored = [], {}, set()
     counter = [0]
+
+    def skip(bs):
+        # inside a directive that parses its body with match_titles=True headings may open sections (by design);
+        # the property only requires that the structure outside is as if the directive were not there
+        for b in bs:
+            if b[0] == "H":
+                ignored.add(counter[0])
+                counter[0] += 1
+            elif b[0] in ("Q", "L", "N", "T"):
+                skip(b[1])
+            elif b[0] == "I":
+                skip(b[2])
 
     def walk(bs, off, inside):
         for b in bs:
@@ -396,9 +410,9 @@ def expected_structure(doc):
             elif k == "I":
                 walk(b[2], b[1], inside)   # an include is rendered in place with its own offset
             elif k == "T":
-                raise ValueError("titled directive is not part of the property's quantifier")
+                skip(b[1])
     walk(doc, 0, False)
-    return top, nested
+    return top, nested, ignored
 
 
 def parent_spec(levels, i):
@@ -424,7 +438,7 @@ def check_doc(ctx, case, d):
         return False
     if other:
         fail("sections:docutils-error", "rendering reported %s" % other[0]["msg"][:200])
-    top, nested = expected_structure(doc)
+    top, nested, ignored = expected_structure(doc)
     levels = [l for _, l in top]
     ids = [i for i, _ in top]
     exp_parent = {}
@@ -449,6 +463,9 @@ def check_doc(ctx, case, d):
                 rubrics[hid] = x[2]
                 order.append(hid)
     walk(itree, None)
+    obs_parent = {i: p for i, p in obs_parent.items() if i not in ignored}
+    rubrics = {i: l for i, l in rubrics.items() if i not in ignored}
+    order = [i for i in order if i not in ignored]
     for i in nested:
         if i in obs_parent:
             fail("sections:nested-heading-made-section", "heading h%d inside a container opened a section" % i)
@@ -464,7 +481,7 @@ def check_doc(ctx, case, d):
             fail("sections:order", "sections/rubrics are not in source order", sorted(order), order)
         if rubrics != nested:
             fail("sections:rubric-level", "rubrics {heading: level} differ from the nested headings", nested, rubrics)
-    if len(iw) != nwarn:
+    if not ignored and len(iw) != nwarn:
         fail("sections:warning-count", "%d [myst.header] warnings, expected %d (one per upward skip of more than one level)"
              % (len(iw), nwarn), nwarn, iw)
     return ok
@@ -493,10 +510,10 @@ def search(ctx):
     seen = {}
     with scratch_dir() as d:
         for c in ctx.suspects[:200]:
-            if c and "doc" in c and "T" not in set(_kinds(c["doc"])):
+            if c and "doc" in c:
                 ctx.search_cases += 1
                 check_doc(ctx, c, d)
-    docs = list(case_stream(ctx, "search", allow_titled=False))
+    docs = list(case_stream(ctx, "search"))
     ctx.search_cases += len(docs)
     for part in pmap_chunks(_check_chunk, docs):
         for f in part:
@@ -521,11 +538,13 @@ def replay(ctx, data):
 LEVEL_TEXT = ("Proof (Coq): for every sequence of heading levels >= 1 of any length the level-map machine of update_section_level_state "
               "never raises (level 0 stays in the map, keys strictly increasing), attaches heading i to the closest preceding still-open "
               "heading of lower level (or the document) in source order, and emits exactly one [myst.header] warning per upward skip of "
-              "more than one level; for every token tree a heading below a container or a directive body creates a rubric with its level "
-              "and leaves level map, current node, offset and section structure untouched; nested_render_text with a temp root restores "
-              "the level map. Tied to base.py/mocking.py by differential correspondence (exhaustive level sequences, nested containers, "
-              "directives, heading-offset includes) on every run.")
+              "more than one level; the same for whole documents (C05_document_sections: document-level headings interleaved with any "
+              "blocks, containers, directive bodies and nested heading-offset includes, w.r.t. the effective levels); for every token "
+              "tree a heading below a container or a directive body creates a rubric with its level and leaves level map, current node, "
+              "offset and section structure untouched; nested_render_text with a temp root restores the level map. Tied to "
+              "base.py/mocking.py by differential correspondence (exhaustive level sequences, nested containers, directives, "
+              "heading-offset includes) on every run.")
 LEVEL_NOTE = ("Trusted: Coq kernel; the hand transcription in coq/Sect/Sections.v (checked by correspondence, not proved); markdown-it block "
-              "parsing and docutils admonition/include plumbing as oracles. The refinement theorem is stated for documents consisting of "
-              "headings; paragraphs, containers and includes between them are covered by the frame theorem (containers do not touch the "
-              "section state) and by the correspondence, not by a single end-to-end theorem.")
+              "parsing and docutils admonition/include plumbing as oracles. Directives that nested-parse with match_titles=True (none in "
+              "docutils itself; Sphinx's `only`) do open sections by design: they are modelled (TDirective true), covered by "
+              "C05_level_map_inv and C05_restore_after_*, exercised through a test directive, and excluded from C05_document_sections.")
